@@ -1,4 +1,5 @@
 import LopdfModel.Lemmas.Lex
+import LopdfModel.Lemmas.Lit
 import LopdfModel.Model.File
 /-
   C01 — property theorems (token layer).  Each states: what `Writer` writes for a value is
@@ -72,5 +73,27 @@ theorem int_rt (i : Int) (rest : Bytes) (hlo : -(I64_MAX : Int) - 1 ≤ i) (hhi 
 example : NoDigitAhead [32, 48] := by intro b r h; simp at h; obtain ⟨rfl, _⟩ := h; decide
 example : pInteger (writeInt (-9223372036854775808) ++ [93]) = some (-9223372036854775808, [93]) :=
   int_rt _ _ (by decide) (by decide) (by intro b r h; simp at h; obtain ⟨rfl, _⟩ := h; decide)
+
+theorem escBytes_length (s : Bytes) : s.length ≤ (escBytes s).length := by
+  induction s with
+  | nil => simp [escBytes]
+  | cons b bs ih => simp only [escBytes, List.length_append, List.length_cons]; split <;> simp <;> omega
+
+/-- **Literal strings (partial).** Full statement: `∀ s rest, pLiteral (writeString s .lit ++ rest)
+= some (s, rest)` for EVERY byte string (balanced parentheses stay raw, unbalanced ones and
+those nested deeper than MAX_BRACKET are escaped). Proved here under the decidable guard
+"no parenthesis byte": arbitrary bytes otherwise — backslash, CR, LF, NUL, 0x80–0xFF — for
+every following text. The parenthesis-matching part is covered by the `write_obj`/`parse_obj`
+correspondence (byte-pair sweep, random parenthesis strings, the 150-deep regression witness). -/
+theorem lit_rt_partial (s rest : Bytes) (hs : NoParens s) :
+    pLiteral (writeString s .lit ++ rest) = some (s, rest) := by
+  rw [writeString_lit_noparens s hs]
+  simp only [List.cons_append, List.nil_append, List.append_assoc, pLiteral]
+  rw [innerLit_escBytes MAX_BRACKET rest s hs _ (by have := escBytes_length s; simp; omega)]
+  rfl
+
+example : NoParens [92, 13, 10, 0, 255, 65] := by intro b hb; simp at hb; rcases hb with h|h|h|h|h|h <;> subst h <;> decide
+example : pLiteral (writeString [92, 13, 10, 0, 255] .lit ++ [62, 62]) = some ([92, 13, 10, 0, 255], [62, 62]) :=
+  lit_rt_partial _ _ (by intro b hb; simp at hb; rcases hb with h|h|h|h|h <;> subst h <;> decide)
 
 end Lopdf
